@@ -48,6 +48,47 @@ def matchable_template(rng, pool):
     return {"head": head, "items": items, "params": used, "array_params": [], "defs": used}
 
 
+def built_spec(rng, pool):
+    """A program assembled through the API from every supported value kind."""
+    names = rng.sample(pool, min(len(pool), rng.randint(0, 2)))
+    names = [n for n in names if not (n[0] == "p" and n[1:].isdigit())]
+    ops = []
+
+    def val():
+        k = rng.random()
+        if k < 0.15:
+            cols = rng.randint(1, 3)
+            return {"t": "nd", "d": rng.choice("fic"), "v": [[rng.choice([1, 2, 0, -3]) for _ in range(cols)]
+                                                             for _ in range(rng.randint(1, 2))]}
+        if k < 0.25:
+            return {"t": "c", "re": rng.choice([0.5, -1.0, 2.0]), "im": rng.choice([1.0, -0.25])}
+        if k < 0.33:
+            return rng.choice([True, False])
+        if k < 0.40:
+            return rng.choice(["foo", "bar"])
+        if k < 0.55 and names:
+            a = rng.choice(names)
+            return {"t": "sym", "names": names, "e": rng.choice(["2*%s+1", "%s", "-%s/3", "%s**2"]) % a}
+        if k < 0.62:
+            return {"t": "rrt", "names": ["q0", "q1"], "e": rng.choice(["q0*2", "q0+q1", "q1-0.5*q0"])}
+        if k < 0.7:
+            return {"t": "list", "v": [rng.choice([1, 0.5, 2]) for _ in range(rng.randint(0, 3))]}
+        return rng.choice([1, 0.5, -2, 3.25, 0])
+
+    for _ in range(rng.randint(1, 5)):
+        o = {"op": rng.choice(G.GATES1 + G.GATES0), "modes": rng.sample(range(4), rng.randint(1, 2))}
+        if rng.random() < 0.8:
+            o["args"] = [val() for _ in range(rng.randint(0, 2))]
+            o["kwargs"] = [[k, val()] for k in rng.sample(G.KWKEYS, rng.randint(0, 2))]
+        ops.append(o)
+    used = [n for n in names if any(n in json.dumps(o) for o in ops)]
+    spec = {"name": "built", "ops": ops, "params": used}
+    if rng.random() < 0.5:
+        spec["target"] = rng.choice(G.DEVICES)
+        spec["options"] = [[k, rng.choice([1, 10, True, "x"])] for k in rng.sample(G.OPTKEYS, rng.randint(0, 2))]
+    return spec, used
+
+
 def array_template(rng, pool):
     """A template whose variables are whole-array parameters and arrays with parameter
     cells, used through indexing (the array-valued-parameter corner of instantiation)."""
@@ -93,6 +134,11 @@ def gen_plan(rng):
     sc = None
     for j in range(npool):
         k = rng.random()
+        if rng.random() < 0.2:
+            spec, used = built_spec(rng, cfg["pool"])
+            steps.append({"op": "build", "out": "o%d" % j, "spec": spec})
+            progs.append({"id": "o%d" % j, "params": used, "array_params": [], "kind": "program"})
+            continue
         if sc is not None and k < 0.2:
             pass            # the same script once more: an equal but distinct program
         elif k < 0.4:
@@ -190,14 +236,18 @@ def gen_plan(rng):
             steps.append({"op": "digraph", "obj": p["id"], "out": oid})
             objs.append({"id": oid, "kind": "graph", "derived": p["id"]})
         elif k < 0.80:
-            q = rng.choice(programs)
-            # bias to (template, its own instance), the pair that can succeed
-            insts = [o for o in programs if o.get("derived") == p["id"]]
+            # bias to (template, non-template) pairs and to (template, its own instance),
+            # the pair that can succeed; the rest exercises every refusal
+            t = rng.choice(templates) if templates and rng.random() < 0.8 else p
+            plain = [o for o in programs if not (o["params"] or o["array_params"])]
+            q = rng.choice(plain) if plain and rng.random() < 0.8 else rng.choice(programs)
+            insts = [o for o in programs if o.get("derived") == t["id"]]
             if insts and rng.random() < 0.6:
                 q = rng.choice(insts)
             oid = fresh("m")
-            steps.append({"op": "match", "t": p["id"], "p": q["id"], "out": oid})
-            objs.append({"id": oid, "kind": "match", "derived": p["id"]})
+            steps.append({"op": "match", "t": t["id"], "p": q["id"], "out": oid})
+            if insts and q in insts:
+                objs.append({"id": oid, "kind": "match", "derived": t["id"]})
         elif k < 0.88:
             steps.append({"op": "attrs", "obj": p["id"]})
         elif k < 0.94:
@@ -239,6 +289,14 @@ def run(plan, ctx):
         objs = ev.get("objs", {})
         bump("steps")
         bump("op:" + op)
+        if op == "call" and st.get("mode") in ("missing", "baddim"):
+            bump("fault_configured:failing_call_" + st["mode"])
+            if not ev.get("ok", True):
+                bump("fault_fired:failing_call_" + st["mode"])
+        if op == "match":
+            bump("fault_configured:match_attempt")
+            if not ev.get("ok", True):
+                bump("fault_fired:match_attempt")
         if not ev.get("ok", True):
             bump("raised:" + op)
             bump("raised_type:" + str(ev["res"][1]))
@@ -256,6 +314,10 @@ def run(plan, ctx):
         elif op in child.LOAD_OPS:
             if ev.get("feat"):
                 feats[st["out"]] = ev["feat"]
+        elif op in ("build", "mkarray"):
+            if op == "build":
+                feats[st["out"]] = {"argless": any(o.get("args") is None for o in st["spec"]["ops"]),
+                                    "template": bool(st["spec"].get("params"))}
         else:
             src = st.get("obj") or st.get("t")
             f = feats.get(src, {})
